@@ -140,6 +140,7 @@ impl Params {
                 matrix_vector_types: mvt,
                 rustfmt: flag("rustfmt")?,
                 validate: if head.contains("validate: Some") { Some(ValidationOptions::default()) } else { None },
+                ..Default::default()
             },
             include: None,
             extra: vec![],
